@@ -156,6 +156,11 @@ def r2(repo, chk):
     txt = " ".join(norm(s) for s in c.stmts())
     ok = "encode_address(addr)" in txt and "original_destination_connection_id" in txt and "retry_source_connection_id" in txt and ".encrypt(" in txt
     chk.ob("R2", "create_token encrypts address, original DCID and retry SCID", ok, "", c.loc(c.node))
+    # the token's fields are written and read with the same length-prefix sizes, in the same order
+    ws = [(norm(x.args[1]), norm(x.args[2])) for x in c.calls(name="push_opaque") if len(x.args) >= 3]
+    rs_ = [(norm(vv.args[1]), norm(t)) for st, t, vv in v.assigns() if isinstance(vv, ast.Call) and call_name(vv) == "pull_opaque" and len(vv.args) >= 2] if hasattr(v, "assigns") else []
+    ok = [a for a, b in ws] == [a for a, b in rs_] and len(ws) == 3 and [b for a, b in ws] == ["encode_address(addr)", "original_destination_connection_id", "retry_source_connection_id"] and [b for a, b in rs_] == ["encoded_addr", "original_destination_connection_id", "retry_source_connection_id"]
+    chk.ob("R2", "create_token and validate_token agree on the order and prefix sizes of the three token fields", ok, f"written {ws}, read {rs_}", c.loc(c.node))
     dec = [x for x in v.calls(suffix="decrypt")]
     chk.ob("R2", "validate_token decrypts the token with the server's key (a forged token fails)", len(dec) == 1, "", v.loc(v.node))
     # the new connection needs a full-size Initial
@@ -244,6 +249,11 @@ def r4(repo, chk):
     ht = Fn(repo, P + "_handle_timer")
     ok = any(norm(v) == "max(self._timer_at, self._loop.time())" for st, t, v in ht.assigns(chain="now"))
     chk.ob("R4", "_handle_timer never reports a time before the deadline it was armed for", ok, "", ht.loc(ht.node))
+    # the fired handle is forgotten before transmit() looks at it: transmit arms a new timer only when self._timer is None
+    clr = [st for st, t, v in ht.assigns(chain="self._timer") if isinstance(v, ast.Constant) and v.value is None]
+    trc = ht.calls(name="self.transmit")
+    ok = len(clr) == 1 and bool(trc) and not ht.lexical_guards(clr[0], expand=False) and all(clr[0].lineno < c.lineno for c in trc)
+    chk.ob("R4", "_handle_timer forgets the fired timer handle before it calls transmit()", ok, "transmit() sees a non-None self._timer; when get_timer() returns the same deadline again it neither cancels nor re-arms, and the connection is left without a timer", ht.loc(ht.node))
     tr = Fn(repo, P + "transmit")
     gt = [st for st, t, v in tr.assigns(chain="timer_at") if norm(v) == "self._quic.get_timer()"]
     arm = [c for c in tr.calls(name="self._loop.call_at")]
